@@ -48,6 +48,9 @@ def cases():
         lambda o, i: P("JSONExtract", this=IS(o["x"]), expression=LITERAL("$[2]", True)), "array access by zero-based index")
     add("v[expr] (non-literal index) is left alone", "indices_to_json_extract",
         mk(lambda o: node("Bracket", "stmt", this=op(o, "x"), expressions=Lst([S("i")]))), UNCHANGED, "only literal indices are JSON paths")
+    add("(v:a)::VARCHAR extracts the string (->>) under the cast", "json_extract_cast_as_varchar",
+        mk(lambda o: node("Cast", "stmt", this=node("JSONExtract", this=op(o, "x"), expression=op(o, "path", jpath())), to=dtype("VARCHAR"))),
+        lambda o, i: P("Cast", this=P("JSONExtractScalar", this=IS(o["x"]), expression=IS(o["path"]))), "a VARIANT string converted to text loses its JSON quotes")
     add("UPPER(v:a) extracts the string (->>)", "json_extract_cased_as_varchar",
         mk(lambda o: node("Upper", "stmt", this=node("JSONExtract", this=op(o, "x"), expression=op(o, "path", jpath())))),
         lambda o, i: P("Upper", this=P("JSONExtractScalar", this=IS(o["x"]), expression=IS(o["path"]))), "case conversion turns a VARIANT string into text without JSON quotes")
